@@ -310,17 +310,19 @@ func buildC11(cfg *mon.Config) []*mon.Sub {
 	}
 	rnd := &mon.Sub{
 		Name:  "cursor-model-random",
-		Rule:  "seeded random contents up to 300 characters (ASCII, Latin-1, BMP, astral; LF, CR, CRLF, LFCR breaks) x random sequences of up to 400 operations; non-trivial = the run completed against the model",
+		Rule:  "seeded random contents up to 850 characters (ASCII, Latin-1, BMP, astral, U+2028/2029/0085, VT, FF; LF, CR, CRLF, LFCR breaks) x random sequences of up to 400 operations; non-trivial = the run completed against the model",
 		Floor: 100,
 		Gen: func(emit func(string)) {
 			r := cfg.Rng("c11-random")
-			chars := []string{"a", "b", " ", "é", "ш", "€", "😀", "\t"}
+			chars := []string{"a", "b", " ", "é", "ш", "€", "😀", "\t", "\u2028", "\u2029", "\u0085", "\v", "\f"}
 			breaks := []string{"\n", "\r", "\r\n", "\n\r", "\n\n", "\r\r"}
 			for i := 0; i < cfg.N(3000, 200000); i++ {
 				var b strings.Builder
 				n := r.Intn(300)
 				if r.Chance(1, 2) {
 					n = r.Intn(12)
+				} else if r.Chance(1, 3) {
+					n = 250 + r.Intn(600) // beyond any small internal block size
 				}
 				for j := 0; j < n; j++ {
 					if r.Chance(1, 4) {
